@@ -9,6 +9,8 @@ use std::collections::BTreeSet;
 
 pub struct C12;
 
+const SECOND_ID: u64 = 6;
+
 #[derive(Clone, Debug)]
 struct Case {
     lower: f64,
@@ -47,6 +49,14 @@ fn build(case: &Case) -> (v1::Instance, u64) {
             v.bound = Some(crate::mk::bound(-1.0, 1.0));
         }
         inst.decision_variables.push(v);
+    }
+    // a second integer variable for the multi-step case (encode one variable after the other)
+    {
+        let mut v = v1::DecisionVariable::default();
+        v.id = SECOND_ID;
+        v.kind = KIND_INTEGER;
+        v.bound = Some(crate::mk::bound(-2.0, 3.5));
+        inst.decision_variables.insert(case.others as usize % (inst.decision_variables.len() + 1), v);
     }
     inst.objective = Some(crate::mk::flin(crate::mk::linear(vec![(target, 2.0)], 1.0)));
     let mut c = v1::Constraint::default();
@@ -119,6 +129,52 @@ fn check_case(case: &Case, ctx: &mut Ctx) -> PResult {
     }
     if lin.constant != lo {
         return fail("C12/constant", format!("constant is {}, expected ceil(lower) = {lo}: {}", lin.constant, what()));
+    }
+    // multi-step: encode a second variable on the same instance; its binaries must be fresh with respect to
+    // everything that exists now (including the binaries of the first encoding)
+    {
+        let ids_now: BTreeSet<u64> = inst.decision_variables.iter().map(|v| v.id).collect();
+        let n_before = inst.decision_variables.len();
+        let mut inst2 = inst.clone();
+        match inst2.log_encode(SECOND_ID) {
+            Ok(l2) => {
+                ctx.label("second-encode");
+                let added = &inst2.decision_variables[n_before..];
+                let mut fresh = BTreeSet::new();
+                for v in added {
+                    if ids_now.contains(&v.id) || !fresh.insert(v.id) {
+                        return fail("C12/second-encode/new-id-not-fresh", format!("second log_encode reused id {} (existing ids {:?}): {}", v.id, ids_now, what()));
+                    }
+                    if v.kind != KIND_BINARY || v.subscripts.first() != Some(&(SECOND_ID as i64)) {
+                        return fail("C12/second-encode/new-variable-shape", format!("second log_encode: variable {} kind {} subscripts {:?}: {}", v.id, v.kind, v.subscripts, what()));
+                    }
+                }
+                // [-2, 3.5] -> integers -2..=3: value set over all bit patterns
+                let coefs: Vec<f64> = l2.terms.iter().map(|t| t.coefficient).collect();
+                let tids: BTreeSet<u64> = l2.terms.iter().map(|t| t.id).collect();
+                if tids != fresh || coefs.len() > 8 {
+                    return fail("C12/second-encode/terms-vs-new-variables", format!("second expression uses ids {tids:?}, new variables {fresh:?}: {}", what()));
+                }
+                let mut vals = BTreeSet::new();
+                for bits in 0u32..(1 << coefs.len()) {
+                    let mut x = l2.constant;
+                    for (i, c) in coefs.iter().enumerate() {
+                        if (bits >> i) & 1 == 1 {
+                            x += c;
+                        }
+                    }
+                    vals.insert(x as i64);
+                    if x.fract() != 0.0 {
+                        return fail("C12/second-encode/non-integer-value", format!("second encoding takes the value {x}: {}", what()));
+                    }
+                }
+                let want: BTreeSet<i64> = (-2..=3).collect();
+                if vals != want {
+                    return fail("C12/second-encode/value-set", format!("second encoding takes values {vals:?}, range is -2..=3: {}", what()));
+                }
+            }
+            Err(e) => return fail("C12/second-encode/err", format!("second log_encode failed ({e:#}): {}", what())),
+        }
     }
     if width == 0 {
         ctx.label("single-integer");
@@ -297,7 +353,7 @@ impl Property for C12 {
     }
     fn required_labels(&self) -> Vec<String> {
         let mut v: Vec<String> = CLASS_NAMES.iter().map(|c| format!("class={c}")).collect();
-        v.extend(["fractional-bound", "width>4096", "single-integer", "oracle=all-bit-patterns", "oracle=complete-sequence", "child-process"].iter().map(|s| s.to_string()));
+        v.extend(["fractional-bound", "width>4096", "single-integer", "oracle=all-bit-patterns", "oracle=complete-sequence", "child-process", "second-encode"].iter().map(|s| s.to_string()));
         v
     }
     fn cases(&self, tier: Tier) -> usize {
